@@ -40,7 +40,7 @@ def materialise(host, task, workrel, bases):
         rel = f"{workrel}/{inp['rel']}"
         t = inp["type"]
         if t == "blob":
-            host.write(rel, world.blob(task["seed"], inp["name"], inp["size"]))
+            host.write(rel, world.blob(task["seed"], inp.get("content", inp["name"]), inp["size"]))
         elif t == "text":
             host.write(rel, _subst(inp["text"], wdir))
         elif t == "desc":
@@ -68,6 +68,22 @@ def collect(host, workrel):
 def exec_task(host, task, workrel, bases, faults=(), variant=None):
     wdir = materialise(host, task, workrel, bases)
     kind = task["kind"]
+    prev_cwd = None
+    if task.get("cwd_in"):
+        # the description names its files relatively: the operation runs from the directory that holds them
+        try:
+            prev_cwd = os.getcwd()
+        except OSError:
+            prev_cwd = host.home_cwd
+        os.chdir(os.path.join(wdir, "in"))
+    try:
+        return _exec_task(host, task, workrel, wdir, kind, faults, variant)
+    finally:
+        if prev_cwd is not None:
+            os.chdir(prev_cwd)
+
+
+def _exec_task(host, task, workrel, wdir, kind, faults, variant):
     if kind == "cli":
         o = host.cli(_subst(task["argv"], wdir), kind=task["label"], faults=faults)
     elif kind == "lib_obj":
@@ -100,7 +116,7 @@ def exec_task_fresh(req):
     host = SimHost(req["seed"], req["swarm"])
     try:
         os.chdir(host.root)
-        o, outputs, stdout = exec_task(host, req["task"], "w", req["bases"])
+        o, outputs, stdout = exec_task(host, req["task"], "p" + str(req["task"].get("wd", "w")), req["bases"])
         return {"cls": o.cls, "exc": o.exc_type, "msg": o.exc_msg, "outputs": outputs, "stdout": stdout,
                 "hashseed": os.environ.get("PYTHONHASHSEED")}
     finally:
@@ -273,6 +289,22 @@ class History(Machine):
                          "inputs": blob_inputs() + [{"rel": f"in/d.{fmt}", "type": "desc", "desc": d_main, "fmt": fmt}]})
         pool.append({"kind": "lib_obj", "label": "create-obj", "seed": seed, "group": "create-main", "desc": d_main,
                      "inputs": blob_inputs()})
+        # the same description and the same path strings, other bytes behind them (file replaced between two builds)
+        blobs_v2 = [{"rel": "in/" + n, "type": "blob", "name": n, "content": n + "#v2", "size": z + (3 if z else 1)} for n, z in blobs]
+        pool.append({"kind": "cli", "label": "create-yaml-files-replaced", "seed": seed, "wd": 0,
+                     "argv": ["create", "--input-file", f"{W}/in/d.yaml", "--output-file", f"{W}/out/e.suit"],
+                     "inputs": blobs_v2 + [{"rel": "in/d.yaml", "type": "desc", "desc": d_main, "fmt": "yaml"}]})
+        # relative file names, resolved from the directory that holds them: two inputs sharing the *names* only
+        for tag in ("rel-a", "rel-b"):
+            wrel = gen.World()
+            for n, z in blobs:
+                wrel.blobs[n] = {"path": n}
+            grel = gen.DescGen(s.sub("desc", "relative"), [f for f in feats if f != "deps"] + ["refs"], wrel, size=1)
+            drel = grel.envelope(payload_names={"#fw_a": "fw_a.bin"})
+            pool.append({"kind": "cli", "label": "create-" + tag, "seed": seed, "cwd_in": True,
+                         "argv": ["create", "--input-file", "d.yaml", "--output-file", f"{W}/out/e.suit"],
+                         "inputs": [{"rel": "in/" + n, "type": "blob", "name": n, "content": f"{n}#{tag}", "size": z + len(tag)}
+                                    for n, z in blobs] + [{"rel": "in/d.yaml", "type": "desc", "desc": drel, "fmt": "yaml"}]})
         d2 = gen_desc("second")
         pool.append({"kind": "cli", "label": "create-yaml-2", "seed": seed,
                      "argv": ["create", "--input-file", f"{W}/in/d.yaml", "--output-file", f"{W}/out/e.suit"],
@@ -493,7 +525,7 @@ class History(Machine):
         if ref is None:
             model["_abstract"] = "no-reference"
             return []
-        o, outputs, stdout = exec_task(host, t, f"p{j}", model["bases"], faults=faults, variant=op.get("variant"))
+        o, outputs, stdout = exec_task(host, t, f"p{t.get('wd', j)}", model["bases"], faults=faults, variant=op.get("variant"))
         self.note(model, o)
         label = t["label"]
         ex["labels"][label] = ex["labels"].get(label, 0) + 1
